@@ -17,7 +17,7 @@ func appendFieldKinds(hasObject *Decl, forOneof bool) []string {
 	if forOneof {
 		return []string{"option-inline-object"}
 	}
-	k := []string{"field-string", "field-inline-object", "field-inline-enum"}
+	k := []string{"field-string", "field-inline-object", "field-inline-enum", "field-inline-enum-named-status", "field-inline-object-named-address"}
 	if hasObject != nil {
 		k = append(k, "field-array-of-ref")
 	}
@@ -35,6 +35,11 @@ func newField(kind string, serial int, ref *Decl) *Field {
 		return fld(name, InlineOf(enumD("", "FIRST", "SECOND")))
 	case "field-array-of-ref":
 		return fld(name, ArrayOf(RefTo(ref, "")))
+	case "field-inline-enum-named-status":
+		// nested type named like a top-level type the parent may already refer to
+		return fld("status"+[]string{"", "Two", "Three", "Four"}[serial%4], InlineOf(enumD("", "FIRST", "SECOND")))
+	case "field-inline-object-named-address":
+		return fld("address"+[]string{"", "Two", "Three", "Four"}[serial%4], InlineOf(obj("", fld("inner", T(TInt32)))))
 	}
 	panic(kind)
 }
@@ -48,7 +53,20 @@ func (p *Program) AppendPoints() []*AppendPoint {
 	fieldsPoint = func(desc string, fields *[]*Field, oneof bool) {
 		target := firstObject
 		out = append(out, &AppendPoint{Desc: desc, Kinds: appendFieldKinds(target, oneof), Apply: func(kind string, serial int) {
-			*fields = append(*fields, newField(kind, serial, target))
+			nf := newField(kind, serial, target)
+			for i := 0; i < 8; i++ {
+				clash := false
+				for _, x := range *fields {
+					if x.Name == nf.Name {
+						clash = true
+					}
+				}
+				if !clash {
+					break
+				}
+				nf.Name += "X"
+			}
+			*fields = append(*fields, nf)
 		}})
 		for _, f := range *fields {
 			t := f.T
